@@ -35,6 +35,12 @@ CHECKS = {
   text="All 4096 deleteWith graphs over three nodes (targets: the nodes and a dangling id; self-loops, cycles, chains, fans) x 7 variants (plain facts, a rule node, a property fact, an id spelled ?q, an expiring node deleted by a read, an overwritten dependent with stale index entries, an id spelled \"id\") x 9 sequences of one or two deletions x {indexed, linear under every iteration order of its fact map}; after each deletion GetFact, SearchFacts and the storage pairs must show exactly the reverse-reachability survivors. Non-termination (stack overflow) kills a worker and is attributed to its journaled case.",
   note="Deleting an id that is not live is unspecified and skipped. Quick tier subsamples non-default variants (every 4th graph) and linear map orders (2 of 6); thorough is complete.",
   design="2/C08"),
+ "C09": dict(
+  engine="SEQ",
+  technique="explicit-state model checking: exhaustive BFS over multi-location histories (facts, writer rules, every small parent set incl. loops, events) through core.LocationProvider and sys.System, reference-model oracle plus privileged-snapshot non-interference",
+  text="BFS to depth 3 (quick) / 4 (thorough), from the empty state and from a populated state, over AddFact / RemFact / AddRule / RemRule / SetParents(every parent set of size <= 2: self-loops, 2- and 3-cycles, chains, fans, diamonds) / ProcessEvent on three locations, driven through core.SimpleLocationProvider and through sys.System, on both states. The rule has an inherited pattern condition and an action that calls Env.AddFact. After every step each location's inherited and local searches, rule candidates, query and parents are compared with a model (tree-shaped ancestry: own + transitive parents; looping ancestry: an error, and the call returns), and the private state + storage of every location other than the one operated on must be unchanged.",
+  note="Diamond ancestry is outside the statement's forests (skipped, counted). Actions run with serialActions (concurrent actions are C04/C12). A worker that dies is attributed to its journaled history.",
+  design="2/C09"),
  "C10": dict(
   engine="SEQ",
   technique="explicit-state model checking: exhaustive BFS over rule-lifecycle histories (add/overwrite/remove/disable/enable/reload/location toggle/expiry) under a virtual clock, lifecycle-automaton oracle",
